@@ -382,8 +382,45 @@ def do_runner(args):
     return ('T' if r.is_parallel else 'F') + SEP1 + ('N' if tm is None else str(int(round(tm * 1000))))
 
 
+def do_jobsopt(args):
+    """the -j value as `meson test` parses it: R = refused by argparse (usage error), else the integer"""
+    parser = argparse.ArgumentParser(prog='meson test')
+    mtest.add_arguments(parser)
+    err, sys.stderr = sys.stderr, io.StringIO()
+    try:
+        try:
+            ns = parser.parse_args(['--num-processes=' + args[0]])
+        except SystemExit as e:
+            return 'R' if e.code == 2 else 'EXIT:%r' % (e.code,)
+    finally:
+        sys.stderr = err
+    return str(ns.num_processes)
+
+
+def do_workers(args):
+    """determine_worker_count(['MESON_TESTTHREADS']) with the two environment variables set to the given
+    raw strings (U = unset) and cpu_count() = args[2]"""
+    import multiprocessing
+    from mesonbuild.utils import universal
+    saved = {k: os.environ.pop(k, None) for k in ('MESON_TESTTHREADS', 'MESON_NUM_PROCESSES')}
+    real = multiprocessing.cpu_count
+    try:
+        if args[0] != 'U':
+            os.environ['MESON_TESTTHREADS'] = args[0]
+        if args[1] != 'U':
+            os.environ['MESON_NUM_PROCESSES'] = args[1]
+        multiprocessing.cpu_count = lambda: int(args[2])
+        return str(universal.determine_worker_count(['MESON_TESTTHREADS']))
+    finally:
+        multiprocessing.cpu_count = real
+        for k, v in saved.items():
+            os.environ.pop(k, None)
+            if v is not None:
+                os.environ[k] = v
+
+
 FUNCS = {'classify': do_classify, 'tally': do_tally, 'sched': do_sched, 'select': do_select,
-         'suite': do_suite, 'slice': do_slice, 'runner': do_runner}
+         'suite': do_suite, 'slice': do_slice, 'runner': do_runner, 'jobsopt': do_jobsopt, 'workers': do_workers}
 
 
 def main():
